@@ -6,21 +6,21 @@
           evaluating the expressions of `Sbepp.Extracted.SizeChecks`, regenerated from /repo).
   Spec:   plain arithmetic on byte ranges: `inside n lo len`, `b + off + size ≤ n`.
 
-  On the current tree the property is FALSE at full strength, for three reasons that are kept as
-  refuted `def … : Prop` with kernel-checked witnesses (each witness is replayed on the real code by
-  the check):
-    * `SBEPP_SIZE_CHECK` converts `end - begin` to `std::size_t`: on a view that begins PAST the end
-      pointer (such views are produced without any check by `get_first_dynamic_field_view`,
-      `get_dynamic_field_view`, `flat_group_base::operator[]`) the difference is negative, the
-      converted value is ≥ 2^63 and the check passes (`sizeCheck_sound_full_false`,
-      `guard_sound_full_false`, `no_silent_access_full_false`);
+  Since fix 7262f97 the macro also requires `begin <= end` (pointers compared as addresses), so a
+  check on a view that begins past the end pointer FAILS (`sizeCheck_past_end_rejected`,
+  `sizeCheck_sound_full_proved`).  What remains false at full strength is kept as refuted
+  `def … : Prop` with kernel-checked witnesses (each replayed on the real code by the check):
     * `offset + size` is computed in `std::size_t` and wraps (`sizeCheck_wrap_full_false`: reachable
-      through a 64-bit `length`: `sizeof(size_type) + size()`);
+      through a 64-bit `length`: `sizeof(size_type) + size()`), and positions derived from 64-bit
+      header values leave the pointer range (`guard_sound_full_false`, `no_silent_access_full_false`,
+      `guard_sound_cursor_full_false`);
     * `dynamic_array_ref::assign_range` / `assign(first, last)` copy into the buffer BEFORE the only
       check that covers the copied bytes (`write_before_check_false`).
-  The `_partial` theorems state exactly what holds: every view begins inside the buffer
-  (`ViewsInside`), no wrap-around (`NoWrap`), and for the "no access before the failing check" form
-  additionally only accessor kinds that check first.
+  The `_partial` theorems state exactly what holds: every pointer a check is based on is
+  representable (`PtrsRepresentable`: no overflow in the pointer arithmetic of the call), no
+  wrap-around of `offset + size` (`NoWrap`) — both can only fail with 64-bit header members — and for
+  the "no access before the failing check" form only accessor kinds that check first.  No
+  hypothesis on WHERE derived views begin is needed any more.
 -/
 import Sbepp.Lemmas.C10
 
@@ -37,12 +37,13 @@ theorem sizeCheck_eq (b e off size : Nat) (hb : b < 2^63) (he : e < 2^63) (ho : 
     sizeCheck b e off size = some (stdOk b e ((off + size) % 2^64)) :=
   macro_eval _ _ _ _ .u64 _ hb he (add_u64_left .u64 off size ho (nn_u64 size hs)) (nn_u64 _ (Nat.mod_lt _ (by decide)))
 
-/-- begin ≤ end, no wrap: a passing check means the guarded bytes end at or before `end` -/
-theorem sizeCheck_sound (b e off size : Nat) (hbe : b ≤ e) (he : e < 2^63) (hnw : off + size < 2^64)
-    (h : sizeCheck b e off size = some true) : b + off + size ≤ e := by
-  rw [sizeCheck_eq b e off size (by omega) he (by omega) (by omega), Nat.mod_eq_of_lt hnw] at h
+/-- no wrap: a passing check means begin ≤ end and the guarded bytes end at or before `end` — for ANY
+    order of the two pointers -/
+theorem sizeCheck_sound (b e off size : Nat) (hb : b < 2^63) (he : e < 2^63) (hnw : off + size < 2^64)
+    (h : sizeCheck b e off size = some true) : b ≤ e ∧ b + off + size ≤ e := by
+  rw [sizeCheck_eq b e off size hb he (by omega) (by omega), Nat.mod_eq_of_lt hnw] at h
   injection h with h
-  have := stdOk_sound b e (off + size) hbe (by omega) h
+  have := stdOk_sound b e (off + size) (by omega) h
   omega
 
 /-- non-null begin ≤ end: guarded bytes inside ⇒ the check passes (no spurious assertion) -/
@@ -51,19 +52,23 @@ theorem sizeCheck_complete (b e off size : Nat) (h0 : 0 < b) (hbe : b ≤ e) (he
   rw [sizeCheck_eq b e off size (by omega) he (by omega) (by omega), Nat.mod_eq_of_lt (by omega)]
   rw [stdOk_complete b e (off + size) h0 hbe (by omega) (by omega)]
 
+/-- a view that begins past the end pointer is rejected whatever is asked of it -/
+theorem sizeCheck_past_end_rejected (b e off size : Nat) (hb : b < 2^63) (heb : e < b) (ho : off < 2^64)
+    (hs : size < 2^64) : sizeCheck b e off size = some false := by
+  rw [sizeCheck_eq b e off size hb (by omega) ho hs, stdOk_past_end b e _ heb]
+
 example : sizeCheck 4096 4104 0 8 = some true := by decide
 example : sizeCheck 4096 4104 1 8 = some false := by decide
+example : sizeCheck 4108 4104 0 4 = some false := by decide
 
 /-- full strength: no hypothesis on the order of begin and end -/
 def sizeCheck_sound_full : Prop :=
   ∀ b e off size : Nat, 0 < b → b < 2^63 → e < 2^63 → off + size < 2^64 →
     sizeCheck b e off size = some true → b + off + size ≤ e
 
-/-- witness: a view that begins 4 bytes past the end pointer; a 4-byte read passes the check -/
-theorem sizeCheck_sound_full_false : ¬ sizeCheck_sound_full := by
-  intro h
-  have := h 4108 4104 0 4 (by decide) (by decide) (by decide) (by decide) (by decide)
-  exact absurd this (by decide)
+/-- holds since the macro requires `begin <= end` (it was refuted by b = 4108, e = 4104 before) -/
+theorem sizeCheck_sound_full_proved : sizeCheck_sound_full :=
+  fun b e off size _ hb he hnw h => (sizeCheck_sound b e off size hb he hnw h).2
 
 /-- full strength: offset and size are arbitrary `std::size_t` values -/
 def sizeCheck_wrap_full : Prop :=
@@ -133,11 +138,11 @@ theorem checks_precede_access_extracted :
 /-! ### soundness: guard ⇒ touched bytes inside -/
 
 /-- per accessor kind (`State` = machine context, view, accessor): if the conjunction of its checks
-    holds, every byte it touches lies in `[p, p+n)` — provided the views it checks begin inside the
-    buffer and `offset + size` does not wrap -/
+    holds, every byte it touches lies in `[p, p+n)` — wherever the view begins — provided the pointers
+    it checks are representable and `offset + size` does not wrap -/
 theorem guard_sound_partial (s : State) (hwf : s.ctx.WF) (hb : IsBytes s.ctx.buf)
     (hpos : PosWF s.pos) (hpre : Op.preB s.ctx s.pos s.op = true) (hcf : s.op.checkedFirst = true)
-    (hv : ViewsInside s.ctx s.events) (hnw : NoWrap s.events) (hg : s.guard = true) :
+    (hv : PtrsRepresentable s.ctx s.events) (hnw : NoWrap s.events) (hg : s.guard = true) :
     allInside s.ctx.n s.touches = true := by
   have hn : s.ctx.base + s.ctx.n < 2^63 := by have := hwf.2; omega
   unfold State.guard at hg
@@ -157,7 +162,7 @@ theorem guard_sound_partial (s : State) (hwf : s.ctx.WF) (hb : IsBytes s.ctx.buf
 theorem guard_sound_walk_partial (c : Ctx) (m : MsgL) (ops : List Op) (evs : List Ev)
     (hwf : c.WF) (hb : IsBytes c.buf) (hok : opsOk c (.msg m) ops = true)
     (hcf : ops.all Op.checkedFirst = true) (hw : walk c (.msg m) ops = some evs)
-    (hv : ViewsInside c evs) (hnw : NoWrap evs) (hg : guard evs = true) :
+    (hv : PtrsRepresentable c evs) (hnw : NoWrap evs) (hg : guard evs = true) :
     allInside c.n (touches evs) = true := by
   have hn : c.base + c.n < 2^63 := by have := hwf.2; omega
   have hgood := walk_good c hn (canon_of_isBytes c hb) ops (.msg m) evs trivial hok hcf hw
@@ -180,18 +185,31 @@ example : ∃ evs, walk (exCtx 24) (.msg exMsg) [.grp 0, .gIdx 0, .field 0 2 fal
     guard evs = true ∧ touches evs = [(0, 2), (14, 2), (12, 2), (12, 2), (16, 2)] :=
   ⟨_, rfl, by decide, by decide, by decide⟩
 
-/-- full strength: no hypothesis on where the derived views begin -/
+/-- the 64-bit witness: header 8 bytes (blockLength u16), block 4, one data member with an 8-byte
+    length prefix that holds 2^64 - 8 -/
+def exMsg64 : MsgL := { hdrSize := 8, blOff := 0, blSize := 2, level := .mk 4 [] [] [⟨8⟩] }
+
+def exCtx64 (n : Nat) : Ctx :=
+  { base := 4096, n := n, bo := .little, buf := [4,0,3,0,1,0,0,0, 9,9,9,9, 248,255,255,255,255,255,255,255, 5,6] }
+
+/-- full strength: no hypothesis on representability / wrap-around -/
 def guard_sound_full : Prop :=
   ∀ (c : Ctx) (m : MsgL) (ops : List Op) (evs : List Ev), c.WF → IsBytes c.buf →
     opsOk c (.msg m) ops = true → ops.all Op.checkedFirst = true → walk c (.msg m) ops = some evs →
     guard evs = true → allInside c.n (touches evs) = true
 
-/-- witness: the buffer holds the header only (`n = 8`); `m.g().size()`: the group view begins at
-    `8 + blockLength = 12 > 8`, its header check passes, the read of `numInGroup` touches `[14, 16)` -/
+/-- witness (the view-past-end witness `m.g().size()` at n = 8 no longer works: its header check now
+    fails): the complete 22-byte buffer, `m.d()[5]` with `size() = 2^64 - 8`: `pos < size()` holds,
+    `sizeof(size_type) + size()` wraps to 0, `data_checked` passes, the element read touches byte 25 -/
 theorem guard_sound_full_false : ¬ guard_sound_full := by
   intro h
-  have := h (exCtx 8) exMsg [.grp 0, .gSize] _ (by decide) (by decide) (by decide) (by decide) rfl (by decide)
+  have := h (exCtx64 22) exMsg64 [.data 0, .dElem 5 false] _ (by decide) (by decide) (by decide) (by decide) rfl
+    (by decide)
   exact absurd this (by decide)
+
+/-- the former witness is now rejected: on the header-only buffer `m.g().size()` asserts -/
+example : ∃ evs, walk (exCtx 8) (.msg exMsg) [.grp 0, .gSize] = some evs ∧ run 8 evs 0 = .assertFailed 4 :=
+  ⟨_, rfl, by decide⟩
 
 /-! ### no access before the failing check -/
 
@@ -200,7 +218,7 @@ theorem guard_sound_full_false : ¬ guard_sound_full := by
 theorem no_silent_access_partial (c : Ctx) (m : MsgL) (ops : List Op) (evs : List Ev)
     (hwf : c.WF) (hb : IsBytes c.buf) (hok : opsOk c (.msg m) ops = true)
     (hcf : ops.all Op.checkedFirst = true) (hw : walk c (.msg m) ops = some evs)
-    (hv : ViewsInside c evs) (hnw : NoWrap evs) : ∀ k, run c.n evs 0 ≠ .fault k := by
+    (hv : PtrsRepresentable c evs) (hnw : NoWrap evs) : ∀ k, run c.n evs 0 ≠ .fault k := by
   have hn : c.base + c.n < 2^63 := by have := hwf.2; omega
   have hgood := walk_good c hn (canon_of_isBytes c hb) ops (.msg m) evs trivial hok hcf hw
   exact covered_no_fault c hwf evs [] 0 (by intro t ht; cases ht) hgood.2 hgood.1 hv hnw
@@ -210,15 +228,16 @@ def no_silent_access_full : Prop :=
     opsOk c (.msg m) ops = true → ops.all Op.checkedFirst = true → walk c (.msg m) ops = some evs →
     ∀ k, run c.n evs 0 ≠ .fault k
 
-/-- same witness: the model's outcome is a fault at event 6 (the `numInGroup` read) -/
+/-- same 64-bit witness: the model's outcome is a fault at event 11 (the element read) -/
 theorem no_silent_access_full_false : ¬ no_silent_access_full := by
   intro h
-  exact h (exCtx 8) exMsg [.grp 0, .gSize] _ (by decide) (by decide) (by decide) (by decide) rfl 6 (by decide)
+  exact h (exCtx64 22) exMsg64 [.data 0, .dElem 5 false] _ (by decide) (by decide) (by decide) (by decide) rfl 11
+    (by decide)
 
-/-- accessor kinds that access before they check, even when every view begins inside the buffer -/
+/-- accessor kinds that access before they check, even when nothing overflows or wraps -/
 def write_before_check : Prop :=
   ∀ (c : Ctx) (m : MsgL) (ops : List Op) (evs : List Ev), c.WF → IsBytes c.buf →
-    opsOk c (.msg m) ops = true → walk c (.msg m) ops = some evs → ViewsInside c evs → NoWrap evs →
+    opsOk c (.msg m) ops = true → walk c (.msg m) ops = some evs → PtrsRepresentable c evs → NoWrap evs →
     ∀ k, run c.n evs 0 ≠ .fault k
 
 /-- witness: the complete image (`n = 24`, every view inside); `m.d().assign_range(r)` with 3
@@ -232,17 +251,17 @@ theorem write_before_check_false : ¬ write_before_check := by
 /-! ### cursor-based accessors -/
 
 /-- a traversal with cursors (every member before the target through the plain cursor, entries
-    through `cursor_range`, the target through any of the five wrappers): same statement; the views
-    AND the cursor positions the checks are based on must lie inside the buffer -/
+    through `cursor_range`, the target through any of the five wrappers): same statement, wherever
+    the views and the cursor are -/
 theorem guard_sound_cursor_partial (c : Ctx) (m : CMsg) (tg : Target) (hwf : c.WF) (hb : IsBytes c.buf)
-    (hv : ViewsInside c (travMsg c m tg).evs) (hnw : NoWrap (travMsg c m tg).evs)
+    (hv : PtrsRepresentable c (travMsg c m tg).evs) (hnw : NoWrap (travMsg c m tg).evs)
     (hg : guard (travMsg c m tg).evs = true) : allInside c.n (touches (travMsg c m tg).evs) = true := by
   have hn : c.base + c.n < 2^63 := by have := hwf.2; omega
   have hgood := travMsg_good c hn (canon_of_isBytes c hb) m tg
   exact covered_sound c hwf _ [] (by intro t ht; cases ht) hgood.2 hgood.1 hv hnw hg
 
 theorem no_silent_access_cursor_partial (c : Ctx) (m : CMsg) (tg : Target) (hwf : c.WF) (hb : IsBytes c.buf)
-    (hv : ViewsInside c (travMsg c m tg).evs) (hnw : NoWrap (travMsg c m tg).evs) :
+    (hv : PtrsRepresentable c (travMsg c m tg).evs) (hnw : NoWrap (travMsg c m tg).evs) :
     ∀ k, run c.n (travMsg c m tg).evs 0 ≠ .fault k := by
   have hn : c.base + c.n < 2^63 := by have := hwf.2; omega
   have hgood := travMsg_good c hn (canon_of_isBytes c hb) m tg
@@ -259,7 +278,7 @@ def exCCtx (n : Nat) : Ctx :=
   { base := 4096, n := n, bo := .little, buf := [6,0,1,0,1,0,0,0, 9,9,9,9, 0,0, 2,0,1,0, 7,7] }
 
 /-- the hypotheses are satisfiable: complete image, all three members, the last one through `skip` -/
-example : ViewsInside (exCCtx 20) (travMsg (exCCtx 20) exCMsg ⟨2, .skip⟩).evs ∧
+example : PtrsRepresentable (exCCtx 20) (travMsg (exCCtx 20) exCMsg ⟨2, .skip⟩).evs ∧
     NoWrap (travMsg (exCCtx 20) exCMsg ⟨2, .skip⟩).evs ∧ guard (travMsg (exCCtx 20) exCMsg ⟨2, .skip⟩).evs = true ∧
     (travMsg (exCCtx 20) exCMsg ⟨2, .skip⟩).ptr = 20 := by decide
 
@@ -267,12 +286,21 @@ def guard_sound_cursor_full : Prop :=
   ∀ (c : Ctx) (m : CMsg) (tg : Target), c.WF → IsBytes c.buf →
     ∀ k, run c.n (travMsg c m tg).evs 0 ≠ .fault k
 
-/-- witness: `n = 12` (header and field `a`, not the 2 padding bytes of the block): `m.a(c)` moves the
-    cursor to `8 + blockLength = 14 > 12`, `m.g(c)` passes its header check there, `cursor_range`
-    reads the dimension at 14 -/
+/-- the former witness (cursor moved past the end by `blockLength`) now asserts -/
+example : run 12 (travMsg (exCCtx 12) exCMsg ⟨2, .plain⟩).evs 0 = .assertFailed 12 := by decide
+
+/-- header of 10 bytes whose 8-byte blockLength holds 2^64 - 10, one data member (2-byte length) -/
+def exCMsg64 : CMsg := { hdrSize := 10, blOff := 0, blSize := 8, level := .mk [] [] [⟨2⟩] }
+
+def exCCtx64 (n : Nat) : Ctx :=
+  { base := 4096, n := n, bo := .little, buf := [246,255,255,255,255,255,255,255, 0,0, 1,0, 7] }
+
+/-- witness: `m.d(c)`: the cursor is set to `10 + blockLength = 2^64` bytes behind the buffer start:
+    the pointer arithmetic overflows (in C++ it wraps back to the buffer start), the check on that
+    pointer passes and the length prefix is read through it -/
 theorem guard_sound_cursor_full_false : ¬ guard_sound_cursor_full := by
   intro h
-  exact h (exCCtx 12) exCMsg ⟨2, .plain⟩ (by decide) (by decide) 15 (by decide)
+  exact h (exCCtx64 13) exCMsg64 ⟨0, .plain⟩ (by decide) (by decide) 6 (by decide)
 
 /-! ### completeness: no spurious assertion -/
 
